@@ -109,6 +109,7 @@ def run(chk):
     chk.section('kernels apply only lifting operations to the data operand', lifting)
     chk.decided('lemma/a composition of element-wise (lifting) operations is element-wise', True, detail='structural induction over the expression; stated once')
     bounded_events(chk)
+    bounded_gravity_events(chk)
 
 
 def utils_contract(chk):
@@ -161,6 +162,15 @@ def lifting(chk):
                     paths = chk.explore(call, base=kit.CONST_AXIOMS, catch=(Exception,))
                 except core.Unsupported as e:
                     paths = []
+                try:
+                    # alias_forks: a unit conversion with copy=False returns the operand itself when the caller's unit happens to be the
+                    # target unit -- both cases are explored, so an in-place operation behind such a conversion is seen
+                    fpaths = chk.explore(call, base=kit.CONST_AXIOMS, catch=(Exception,), opts={'alias_forks': True})
+                except core.Unsupported as e:
+                    fpaths = []
+            if fpaths:
+                bad_w = [str(w) for p in fpaths for w in kit.frame_violations(p)]
+                chk.decided(f'conversion.tof:{kname}/no operand is written to, whatever units the operands come in[{dt}]', not bad_w, detail='; '.join(bad_w)[:300])
             ops = sorted(set(t.log))
             bad = [o for o in ops if o not in LIFTING and o not in ELEMENTWISE_MATH]
             chk.decided(f'conversion.tof:{kname}/only element-wise operations touch the data operand `{data}`[{dt}]', not bad and bool(ops) and all(p.kind == 'return' or dt == I64 for p in paths),
@@ -172,7 +182,10 @@ def lifting(chk):
             w = arg('lam', 'length', dtype=F64, dims=('event',))
             t.mark(w)
             return bl._drop_due_to_gravity(distance=arg('L2', 'length', origin='fresh'), wavelength=w, gravity=arg('g', 'accel', dtype=VEC))
-        chk.explore(call, base=kit.CONST_AXIOMS, catch=(Exception,))
+        gpaths = chk.explore(call, base=kit.CONST_AXIOMS, catch=(Exception,), opts={'alias_forks': True})
+    bad_w = [str(w) for p in gpaths for w in kit.frame_violations(p)]
+    chk.decided('conversion.beamline:_drop_due_to_gravity/the (event) wavelength is not written to, whatever unit it comes in', bool(gpaths) and not bad_w,
+                detail='; '.join(bad_w)[:300])
     ops = sorted(set(t.log))
     bad = [o for o in ops if o not in LIFTING and o not in ELEMENTWISE_MATH and o != 'NON-LIFTING .dims']
     chk.decided('conversion.beamline:_drop_due_to_gravity/only element-wise operations touch the wavelength (shape query allowed)', not bad and bool(ops), detail=str(ops))
@@ -300,6 +313,85 @@ def event_failures(n, seed, limit=3):
     return fails
 
 
+def gravity_event_failures(limit=10 ** 6):
+    """[B] event wavelengths through the gravity-corrected angle kernels (the kernels of conversion.beamline that take event data): every
+    unit of the wavelength (angstrom, nm, mm, m -- m is the unit the drop is computed in), beams in m and mm, gravity orthogonal to the
+    incident beam and not, float64 / float32 events.  Per event: the value of the dense kernel for that wavelength and the pixel's
+    geometry; weights, layout, masks, the wavelength coordinates themselves and the input object unchanged."""
+    import numpy as np
+    import scipp as sc
+    from vf.realrun import real_module
+    bl = real_module('conversion.beamline')
+    lam_A = np.array([1.6, 0.9, 0.7, 2.0, 5.0, 3.3, 1.1])
+    begin, end = [0, 3, 3], [3, 3, 7]
+    positions = np.array([[1.8, 2.5, 3.6], [0.3, 0.2, 4.0], [-0.4, -1.7, 2.9]])
+    fails = []
+    for kernel in ('scattering_angles_with_gravity', 'scattering_angle_in_yz_plane'):
+        fn = getattr(bl, kernel)
+        outs = ('two_theta', 'phi') if kernel == 'scattering_angles_with_gravity' else ('two_theta',)
+        for wunit, bunit, gvec, dt in itertools.product(('angstrom', 'nm', 'mm', 'm'), ('m', 'mm'), ((0.0, -9.80665, 0.0), (0.0, -9.7, 1.2)), ('float64', 'float32')):
+            if kernel == 'scattering_angle_in_yz_plane' and gvec[2] != 0:
+                continue        # that kernel is defined for gravity orthogonal to the incident beam only (it refuses anything else)
+            ident = f'{kernel}-{wunit}-{bunit}-{"orthogonal" if gvec[2] == 0 else "tilted"}-{dt}'
+            wav = sc.array(dims=['event'], values=lam_A, unit='angstrom').to(unit=wunit).to(dtype=dt)
+            buf = sc.DataArray(sc.array(dims=['event'], values=np.arange(1.0, 8.0), variances=np.arange(1.0, 8.0) / 10, unit='counts'), coords={'wavelength': wav})
+            da = sc.DataArray(sc.bins(data=buf, dim='event', begin=sc.array(dims=['det'], values=begin, unit=None), end=sc.array(dims=['det'], values=end, unit=None)),
+                              coords={'incident_beam': sc.vector([0.0, 0.0, 41.1], unit='m').to(unit=bunit),
+                                      'scattered_beam': sc.vectors(dims=['det'], values=positions, unit='m').to(unit=bunit),
+                                      'gravity': sc.vector(list(gvec), unit='m/s^2'),
+                                      'wavelength': sc.array(dims=['wavelength'], values=[0.5, 6.0], unit='angstrom').to(unit=wunit).to(dtype=dt)},
+                              masks={'bad': sc.array(dims=['det'], values=[False, True, False])})
+            da = da.broadcast(sizes={'det': 3, 'wavelength': 1}).copy()
+            before = da.copy(deep=True)
+            try:
+                res = da.transform_coords(list(outs), graph={outs if len(outs) > 1 else outs[0]: fn}, quiet=True, keep_inputs=True, rename_dims=False)
+            except Exception as e:  # noqa: BLE001
+                fails.append({'id': ident, 'problem': f'raised {type(e).__name__}: {e}'[:300]})
+                continue
+            prob = None
+            if not sc.identical(before, da):
+                prob = 'input object modified'
+            elif not sc.identical(res.bins.data, before.bins.data) or not sc.identical(res.masks['bad'], before.masks['bad']):
+                prob = 'weights / layout / mask changed'
+            elif not sc.identical(res.bins.coords['wavelength'], before.bins.coords['wavelength']) or not sc.identical(res.coords['wavelength'], before.coords['wavelength']):
+                prob = 'the wavelength coordinate (events or bin edges) changed'
+            else:
+                for name in outs:
+                    for p in range(3):
+                        ev = before['det', p].values[0].coords['wavelength']
+                        if ev.sizes['event'] == 0:
+                            continue
+                        dense = fn(incident_beam=before.coords['incident_beam'], scattered_beam=before.coords['scattered_beam']['det', p],
+                                   wavelength=ev.copy(), gravity=before.coords['gravity'])
+                        dense = dense[name] if isinstance(dense, dict) else dense
+                        got = res['det', p].values[0].coords[name]
+                        if got.unit != dense.unit or not np.allclose(got.values, dense.values, rtol=1e-12 if dt == 'float64' else 1e-5, atol=0):
+                            prob = f'{name} of the events of pixel {p} differs from the dense kernel: {got.values[:2]} {got.unit} vs {dense.values[:2]} {dense.unit}'
+                            break
+                        edges = before.coords['wavelength']['det', p] if 'det' in before.coords['wavelength'].dims else before.coords['wavelength']
+                        dense_e = fn(incident_beam=before.coords['incident_beam'], scattered_beam=before.coords['scattered_beam']['det', p],
+                                     wavelength=edges.copy(), gravity=before.coords['gravity'])
+                        dense_e = dense_e[name] if isinstance(dense_e, dict) else dense_e
+                        got_e = res.coords[name]['det', p]
+                        if got_e.unit != dense_e.unit or not np.allclose(got_e.values.ravel(), dense_e.values.ravel(), rtol=1e-12 if dt == 'float64' else 1e-5, atol=0):
+                            prob = f'{name} bin edges of pixel {p} are not converted with the same function'
+                            break
+                    if prob:
+                        break
+            if prob:
+                fails.append({'id': ident, 'problem': prob})
+                if len(fails) >= limit:
+                    return fails
+    return fails
+
+
+def bounded_gravity_events(chk):
+    fails = gravity_event_failures()
+    chk.bounded_check('gravity-kernels-per-event', 'real scattering_angles_with_gravity / scattering_angle_in_yz_plane on event wavelengths vs the dense kernel event by event; '
+                      'weights, layout, masks, wavelength coordinates, input', 'all 48 cells of kernel x wavelength unit (angstrom, nm, mm, m) x beam unit (m, mm) x gravity direction (orthogonal; tilted for the general kernel) x '
+                      'float64/float32', 48, fails[:20])
+
+
 def bounded_events(chk):
     n = 120 if chk.tier == 'quick' else 4000
     fails = event_failures(n, 30 + chk.seed)
@@ -309,5 +401,10 @@ def bounded_events(chk):
 
 
 def replay(rec):
+    f = rec.get('meta', {}).get('replay') or {}
+    if 'gravity' in rec['obligation'] or '_drop_due_to_gravity' in rec['obligation']:
+        fails = gravity_event_failures()
+        hit = [x for x in fails if x['id'] == f.get('id')] or fails
+        return {'reproduced': bool(hit), 'cases': hit[:1]}
     fails = event_failures(200, 30, limit=2)
     return {'reproduced': bool(fails), 'cases': fails[:2]}
